@@ -447,11 +447,11 @@ theorem request_outcome_ext (cfg : Server.Cfg) (tr : Server.Transport) (now bufL
       Spec.ServerTsig.viewRequest hmS (cfg.keys.map keyCfgOf) req now =
         some ⟨kn.labels, fieldsOf alg.labels rest, mw.toList, modelOutcome cfg.keys nowT kn alg rest mw.toList,
           Spec.ServerTsig.findKey (cfg.keys.map keyCfgOf) kn.labels⟩ ∧
-      10 ≤ rest.length ∧ 12 ≤ d.pos ∧ d.pos ≤ req.size ∧ Tsig.MsgOk mw.toList := by
+      10 ≤ rest.length ∧ 12 ≤ d.pos ∧ d.pos ≤ req.size ∧ Tsig.MsgOk mw.toList ∧ d.pos ≤ d.next ∧ d.next ≤ req.size := by
   obtain ⟨t, mw, r', question, d, owner, nl, fl, kn, alg, rest, hrun, hfind, _, _, _, hdn, hknwf, hknw, halgwf, _,
     h10, hms, hpos12, har1, hmw, hr', ht, _, hview⟩ :=
     request_view cfg tr now bufLen req hbuf hpay hreq hr hv hmS (cfg.keys.map keyCfgOf)
-  have hdsz : d.pos ≤ req.size := by
+  have hdsz : d.pos ≤ req.size ∧ d.pos ≤ d.next ∧ d.next ≤ req.size := by
     have := hrun.2.1
     rw [hr'] at this
     obtain ⟨d0, _, _, hf0, _, _, _, _, _, hdel, _⟩ := findTsig_of_tsigReached _ _ req hr hv
@@ -465,9 +465,10 @@ theorem request_outcome_ext (cfg : Server.Cfg) (tr : Server.Transport) (now bufL
         · cases hdel
       · cases hdel
     omega
+  obtain ⟨hdsz, hdn1, hdn2⟩ := hdsz
   have hmsg : Tsig.MsgOk mw.toList := by rw [hmw]; exact msgOk_prefix req d.pos hpos12 hdsz har1
   have hout := outcome_view cfg.keys hk kn alg hknwf halgwf rest h10 hms now nowT hnow mw.toList hmsg
-  refine ⟨t, mw, r', question, d, kn, alg, rest, hrun, hfind, hknwf, halgwf, hmw, hr', ?_, ?_, h10, hpos12, hdsz, hmsg⟩
+  refine ⟨t, mw, r', question, d, kn, alg, rest, hrun, hfind, hknwf, halgwf, hmw, hr', ?_, ?_, h10, hpos12, hdsz, hmsg, hdn1, hdn2⟩
   · rw [ht, ← hknw]; rfl
   · rw [hview]
     have hout' : Spec.ServerTsig.specTsigOutcome (cfg.keys.map keyCfgOf) kn.labels (fieldsOf alg.labels rest)
